@@ -924,7 +924,7 @@ func (u *universe) genECPart(g *rng, c *genCase, cnr cid.ID, signer int, forceMu
 	muts := []string{"none", "none", "none", "none", "ec_mix", "ec_mix_first", "ec_part_oob", "ec_rule_oob", "ec_idx_nan", "ec_idx_neg", "ec_idx_plus", "ec_only_rule", "ec_only_part",
 		"ec_size", "ec_hash", "ec_parent_nohash", "ec_parent_badattr", "ec_signed", "ec_session", "ec_no_parent", "ec_parent_ver", "ec_parent_cnr",
 		"ec_parent_owner", "ec_parent_epoch", "ec_no_cs", "ec_wrong_part", "stream_more", "stream_less", "stream_diff", "id", "attr_after", "store_fail", "quota", "ver_old", "exp_past", "parent_id", "parent_sig",
-		"stream_plus1", "stream_exact1"}
+		"stream_plus1", "stream_exact1", "ec_parent_unsigned", "ec_parent_foreign_owner"}
 	m := muts[g.n(len(muts))]
 	if forceMut != "" {
 		m = forceMut
@@ -964,7 +964,16 @@ func (u *universe) genECPart(g *rng, c *genCase, cnr cid.ID, signer int, forceMu
 		parent.SetID(id)
 		signWith(parent, u.keys[signer], 0)
 	case "parent_sig":
+		// the parent header is signed by a stranger on behalf of the declared owner
 		signWith(parent, u.keys[(signer+1)%3], 0)
+	case "ec_parent_unsigned":
+		// EC parts are unsigned by design: the signed parent header is their only authentication
+		parent.SetSignature(nil)
+	case "ec_parent_foreign_owner":
+		// the parent header (and with it the part) names another user as the owner, the signer signs
+		parent.SetOwner(u.users[(signer+1)%3])
+		seal(parent, ppl, uint64(len(ppl)))
+		signWith(parent, u.keys[signer], g.n(3))
 	case "ec_wrong_part":
 		pi2 := (pi + 1) % (w.Rules[ri].D + w.Rules[ri].P)
 		partPl = partsByRule[ri][pi2]
